@@ -203,7 +203,7 @@ func pruneAny(v any) any {
 	return v
 }
 
-var idPool = []string{"foo", "a/b", "x y", "ü.1", "p:q", "a%2Fb", "UPPER"}
+var idPool = []string{"foo", "a/b", "x y", "ü.1", "p:q", "a%2Fb", "UPPER", "/lead", "//two", "trail/", "a//b", "a+b", "+", "a/b+c d", "./dot", "a/../b"}
 var dataPool = []string{"", "x", "{\"k\":1}", "\x00\x01", "héllo"}
 
 func genStr(t *rapid.T, pool []string, label string) string {
